@@ -731,6 +731,30 @@ pub fn held<F: Future + 'static>(fut: F, render: fn(F::Output) -> String) -> Cal
     Box::pin(Held { fut: Box::pin(fut), render, done: false })
 }
 
+/// `arrive … unwind=1`: the call future is OWNED BY THE FRAME THAT POLLS IT, the way a spawned task's future is owned
+/// by the runtime's poll frame, an `async` block's awaited future by that block, a `select!`/`join!` arm by the
+/// macro's future: when its own `poll` panics it is destroyed WHILE THAT PANIC IS UNWINDING
+/// (`std::thread::panicking()` is true inside its destructors). Without the option (`Held` in a `Slot`) the panic is
+/// caught around the `poll` call alone and the future is destroyed afterwards, when the thread is no longer
+/// panicking (`catch_unwind(|| fut.poll(cx))`, `FutureExt::catch_unwind`, a hand-written executor). Both are
+/// legitimate callers; a middleware must clean up after a panicking poll in both.
+pub struct OwnedByFrame {
+    fut: Option<CallFut>,
+}
+impl Future for OwnedByFrame {
+    type Output = String;
+    fn poll(mut self: Pin<&mut Self>, cx: &mut Context<'_>) -> Poll<String> {
+        // moved into this frame for the duration of the poll: an unwinding poll destroys it on its way out
+        let mut f = self.fut.take().expect("call future polled after its poll panicked");
+        let r = f.as_mut().poll(cx);
+        self.fut = Some(f);
+        r
+    }
+}
+pub fn owned_by_frame(fut: CallFut) -> CallFut {
+    Box::pin(OwnedByFrame { fut: Some(fut) })
+}
+
 struct Slot {
     fut: CallFut,
     flag: Arc<Flag>,
@@ -901,9 +925,21 @@ impl Callers {
         progressed
     }
     pub fn drop_caller(&mut self, c: usize) -> bool {
+        self.drop_caller_opts(c, false)
+    }
+    /// `unwinding` (`drop c unwind=1`): the unfinished future goes away because the task / frame that owns it panics
+    /// for a reason of its own — it is destroyed while that panic unwinds (`std::thread::panicking()` is true in its
+    /// destructors), not by an orderly `drop`. For the middleware it is a cancellation like any other.
+    pub fn drop_caller_opts(&mut self, c: usize, unwinding: bool) -> bool {
         if let Some(slot) = self.slots.remove(&c) {
-            log_raw(format!("#drop {} {}", c, now_ms()));
-            let _ = catch_unwind(AssertUnwindSafe(move || drop(slot)));
+            log_raw(format!("#drop {} {}{}", c, now_ms(), if unwinding { " unwinding" } else { "" }));
+            let _ = catch_unwind(AssertUnwindSafe(move || {
+                let owned = slot;
+                if unwinding {
+                    panic!("the owner of the call future panics");
+                }
+                drop(owned)
+            }));
             true
         } else {
             false
@@ -952,6 +988,7 @@ pub async fn run_ops(mw: &mut dyn Mw, ops: &[String]) {
                         KNOWN.with(|k| k.borrow_mut().insert(c));
                         let kv = Kv::parse(&words[2..]);
                         if let Some(f) = mw.arrive(c, &kv) {
+                            let f = if kv.u64("unwind", 0) == 1 { owned_by_frame(f) } else { f };
                             callers.insert_full(c, f, kv.u64("keep", 0) == 1, kv.u64("coop", 0) == 1, kv.u64("burn", 0) == 1);
                         }
                     }
@@ -968,7 +1005,7 @@ pub async fn run_ops(mw: &mut dyn Mw, ops: &[String]) {
             }
             "drop" => {
                 if let Some(c) = arg_c {
-                    if !callers.drop_caller(c) {
+                    if !callers.drop_caller_opts(c, Kv::parse(&words[2..]).u64("unwind", 0) == 1) {
                         log_raw("noop".into());
                     }
                 }
